@@ -13,8 +13,24 @@ def run_id_typestate(chk, repo, rule, fis, reference_sites):
     """Id allocation typestate over the given functions (C05.R1, C07.R1, C17.R1)."""
     alloc = ts.allocating_callee_names(repo)
     total_sites = 0
-    for fi in fis:
-        res = ts.check_ids(repo, fi, alloc)
+    results = [(fi, ts.check_ids(repo, fi, alloc)) for fi in fis]
+    # `len(container)` as an allocator is fresh only if no constructor of the family leaves a gap in the id range:
+    # gaps alone are harmless (events), gaps together with a dense allocator are reported, as is a dense allocator whose
+    # family cannot be shown gap-free
+    dense = any(kind == 'assumes-dense-ids' for _, r in results for kind, *_ in r['reports'])
+    for fi, res in results:
+        keep = []
+        for rec in res['reports']:
+            if rec[0] == 'id-gap' and not dense:
+                continue
+            if rec[0] == 'assumes-dense-ids':
+                gaps = [(f2.qual, r2[1]) for f2, rs in results for r2 in rs['reports'] if r2[0] == 'id-gap']
+                if not gaps:
+                    continue
+                rec = (rec[0], rec[1], rec[2], rec[3] + f'; gaps: {gaps[:3]}')
+            keep.append(rec)
+        res['reports'] = keep
+    for fi, res in results:
         n = res['counter_sites'] + res['literal_sites']
         total_sites += n
         if n == 0:
